@@ -250,7 +250,7 @@ type c40Obs struct {
 	First    bool // first request of its goroutine
 	Route    string
 	Status   int
-	HookFail bool // answered 500 "server startup hook failed"
+	HookFail bool // answered with a plain-text 500 (the serve-start hook refused)
 	Panic    string
 	Problem  string // response is not what this request's model says
 	Page     string // landing | describe_page | notfound | health -> body for the once-only comparison
@@ -346,7 +346,8 @@ func (cl *c40Client) do(f c40Flow, method, path string, body []byte, extra map[s
 	resp := c40DoHTTP(cl.s.hs, method, path, hdr, body)
 	o := c40Obs{Flow: f.Kind, First: cl.n == 0, Route: method + " " + path, Status: resp.Status, Panic: resp.Panic}
 	cl.n++
-	if resp.Status == 500 && strings.Contains(string(resp.Body), "server startup hook failed") {
+	// a refusal by the serve-start hook: a plain (non-Arrow) 500, whatever its wording
+	if resp.Status == 500 && !strings.HasPrefix(resp.Header.Get("Content-Type"), lib.ArrowCT) && resp.Panic == "" {
 		o.HookFail = true
 	} else if resp.Panic == "" {
 		if got := resp.Header.Get("X-Request-ID"); got != rid {
